@@ -1496,6 +1496,112 @@ impl<R: Read> Read for Base64Decoder<R> {
     }
 }
 
+/// Verification hooks (add-only, compiled only with feature `verif-hooks`)
+///
+/// - [`verif_hooks::Tokenizer`] instantiates the private incremental tokeniser
+///   ([`MatcherDecoder`]) over caller supplied patterns.
+/// - [`verif_hooks::trace`] reports per-prefix accepting/terminal flags of the
+///   production event and command automata.
+#[cfg(feature = "verif-hooks")]
+pub mod verif_hooks {
+    use super::*;
+
+    struct PatternMatcher {
+        nfa: NFA<usize>,
+        index: usize,
+        /// use `Matcher::decode` path instead of tagged item path
+        decode_path: bool,
+    }
+
+    impl fmt::Debug for PatternMatcher {
+        fn fmt(&self, f: &mut fmt::Formatter<'_>) -> fmt::Result {
+            write!(f, "PatternMatcher({})", self.index)
+        }
+    }
+
+    impl Matcher for PatternMatcher {
+        type Item = usize;
+
+        fn matcher(&self) -> Either<NFA<Void>, NFA<Self::Item>> {
+            if self.decode_path {
+                Either::Left(self.nfa.clone().tags_map(|_| -> Void { unreachable!() }))
+            } else {
+                Either::Right(self.nfa.clone().tag_stop_state(self.index))
+            }
+        }
+
+        fn decode(&self, _data: &[u8]) -> Option<Self::Item> {
+            Some(self.index)
+        }
+    }
+
+    /// Private incremental tokeniser instantiated over caller supplied patterns
+    pub struct Tokenizer {
+        decoder: MatcherDecoder<usize>,
+    }
+
+    impl Tokenizer {
+        /// Patterns must not carry tags, second element selects `Matcher::decode` path
+        pub fn new(patterns: Vec<(NFA<usize>, bool)>) -> Self {
+            let matchers = patterns
+                .into_iter()
+                .enumerate()
+                .map(|(index, (nfa, decode_path))| {
+                    Box::new(PatternMatcher {
+                        nfa,
+                        index,
+                        decode_path,
+                    }) as Box<dyn Matcher<Item = usize>>
+                });
+            Self {
+                decoder: MatcherDecoder::new(MatcherAutomata::new(matchers)),
+            }
+        }
+
+        /// Single decode call: pattern index or unrecognised bytes
+        pub fn decode<B: BufRead>(&mut self, buf: B) -> Result<Option<Result<usize, Vec<u8>>>, Error> {
+            Ok(self
+                .decoder
+                .decode(buf)?
+                .map(|item| item.map_err(|raw| raw.into_vec())))
+        }
+    }
+
+    #[derive(Debug, Clone, Copy, PartialEq, Eq)]
+    pub enum Which {
+        Event,
+        Command,
+    }
+
+    /// Walk production automaton from its start state over `data`. For each consumed
+    /// byte returns `Some((is_accepting, is_terminal))` or `None` when there is no
+    /// transition (walk stops there).
+    pub fn trace(which: Which, data: &[u8]) -> Vec<Option<(bool, bool)>> {
+        fn walk<T>(dfa: &DFA<MatcherTag<T>>, data: &[u8]) -> Vec<Option<(bool, bool)>> {
+            let mut out = Vec::with_capacity(data.len());
+            let mut state = dfa.start();
+            for byte in data {
+                match dfa.transition(state, *byte) {
+                    None => {
+                        out.push(None);
+                        break;
+                    }
+                    Some(next) => {
+                        state = next;
+                        let info = dfa.info(state);
+                        out.push(Some((info.is_accepting, info.is_terminal)));
+                    }
+                }
+            }
+            out
+        }
+        match which {
+            Which::Event => walk(&TTY_EVENT_AUTOMATA.automata, data),
+            Which::Command => walk(&TTY_COMMAND_AUTOMATA.automata, data),
+        }
+    }
+}
+
 #[cfg(test)]
 mod tests {
     use crate::{common::Rnd, encoder::Base64Encoder};
